@@ -128,13 +128,17 @@ func hCased(w string, full int) string {
 }
 
 const (
-	hAlnumLower = iota // a-z 0-9 -
-	hAlnumBoth         // a-z A-Z 0-9 - _
-	hSchemeChars       // a-z A-Z 0-9 + - .
+	hLower       = iota // a-z
+	hLetters            // a-z A-Z
+	hAlnumLower         // a-z 0-9 -
+	hAlnumBoth          // a-z A-Z 0-9 - _
+	hSchemeChars        // a-z A-Z 0-9 + - .
 	hDigits
 	hHex
 )
 
+// hSymText: n symbolic bytes of a character class (every class of a byte is a separate path family inside
+// net/url, so the classes are kept as narrow as the tier allows).
 func hSymText(n int, class int) string {
 	b := make([]byte, n)
 	for i := 0; i < n; i++ {
@@ -143,6 +147,10 @@ func hSymText(n int, class int) string {
 		upper := c >= 'A' && c <= 'Z'
 		digit := c >= '0' && c <= '9'
 		switch class {
+		case hLower:
+			vAssume(lower)
+		case hLetters:
+			vAssume(lower || upper)
 		case hAlnumLower:
 			vAssume(lower || digit || c == '-')
 		case hAlnumBoth:
@@ -188,10 +196,12 @@ func hJoin(labels []string) string {
 	return s
 }
 
+// hGenRegName: [label "."]* last-label ["."], the last label arbitrary, a reserved TLD or a reserved second-level name.
+// wide > 0 widens the character classes of the symbolic bytes (thorough tier).
 func hGenRegName() hHost {
-	labelClass := hAlnumLower
-	if vParam("upper", 0) > 0 {
-		labelClass = hAlnumBoth
+	labelClass, tldClass := hLower, hLetters
+	if vParam("wide", 0) > 0 {
+		labelClass, tldClass = hAlnumLower, hAlnumBoth
 	}
 	var labels []string
 	plain := true
@@ -205,17 +215,17 @@ func hGenRegName() hHost {
 	}
 	switch vChoice(3) {
 	case 0: // arbitrary last label
-		l := hSymText(vLen(0, vParam("tld", 3)), hAlnumBoth)
+		l := hSymText(vLen(0, vParam("tld", 3)), tldClass)
 		if len(l) == 0 {
 			plain = false
 		}
 		labels = append(labels, l)
 	case 1:
 		vCover("gen:reserved-tld")
-		labels = append(labels, hCased(hReservedTLDs[vChoice(len(hReservedTLDs))], vParam("fullcase", 4)))
+		labels = append(labels, hCased(hReservedTLDs[vChoice(len(hReservedTLDs))], vParam("fullcase", 3)))
 	case 2:
 		vCover("gen:reserved-sld")
-		labels = append(labels, hCased("example", 0), hCased([]string{"com", "net", "org"}[vChoice(3)], 3))
+		labels = append(labels, hCased("example", 0), hCased([]string{"com", "net", "org"}[vChoice(3)], 0))
 	}
 	if vBool() {
 		vCover("gen:trailing-dot")
@@ -224,6 +234,27 @@ func hGenRegName() hHost {
 	}
 	t := hJoin(labels)
 	return hHost{text: t, hostname: t, labels: labels, plain: plain}
+}
+
+// hGenRepresentative: a few fixed-shape hosts, used where another part of the URL text is varied.
+func hGenRepresentative() hHost {
+	switch vChoice(6) {
+	case 0:
+		l := []string{hSymText(1, hLower), "nl"}
+		return hHost{text: hJoin(l), hostname: hJoin(l), labels: l, plain: true}
+	case 1:
+		l := []string{hCased("localhost", 0)}
+		return hHost{text: l[0], hostname: l[0], labels: l, plain: true}
+	case 2:
+		l := []string{"www", "example", "org"}
+		return hHost{text: hJoin(l), hostname: hJoin(l), labels: l, plain: true}
+	case 3:
+		l := []string{"10", hSymText(1, hDigits), "0", "1"}
+		return hHost{text: hJoin(l), hostname: hJoin(l), labels: l, plain: true}
+	case 4:
+		return hHost{text: "[::1]", hostname: "::1", ipv6: true}
+	}
+	return hHost{}
 }
 
 func hGenIPv4() hHost {
@@ -258,7 +289,7 @@ func hGenIPv6() hHost {
 	host := hHost{ipv6: true}
 	zl := vLen(0, vParam("zone", 1))
 	if zl > 0 {
-		z := hSymText(zl, hAlnumLower)
+		z := hSymText(zl, hLower)
 		host.zone = true
 		host.text = "[" + body + "%25" + z + "]"
 		host.hostname = body + "%" + z
@@ -282,7 +313,7 @@ func hGenMapped() hHost {
 	case 3:
 		labels = []string{"a", "example", "com"}
 	case 4:
-		labels = []string{hSymText(1, hAlnumLower), "nl"} // harmless
+		labels = []string{hSymText(1, hLower), "nl"} // harmless
 	}
 	text := ""
 	switch vChoice(4) {
@@ -332,55 +363,65 @@ func hGenMapped() hHost {
 	return hHost{text: text, hostname: text, labels: labels, mapped: true}
 }
 
-// H20a: see file comment.
+// H20a: see file comment. Three sub-spaces: the host varied (scheme http/https), the scheme varied (representative
+// hosts), the text around the host varied (representative hosts).
 func H20a() {
-	// scheme
-	var scheme string
+	scheme := "https"
+	var host hHost
+	pre, post := "", ""
 	switch vChoice(3) {
 	case 0:
-		scheme = hCased("https", 0)
+		vCover("space:host")
+		if vBool() {
+			scheme = "http"
+		}
+		switch vChoice(4) {
+		case 0:
+			vCover("kind:reg-name")
+			host = hGenRegName()
+		case 1:
+			vCover("kind:ipv4")
+			host = hGenIPv4()
+		case 2:
+			vCover("kind:ipv6")
+			host = hGenIPv6()
+		case 3:
+			vCover("kind:idna-mapped")
+			host = hGenMapped()
+		}
 	case 1:
-		scheme = hCased("http", 0)
+		vCover("space:scheme")
+		switch vChoice(3) {
+		case 0:
+			scheme = hCased("https", 0)
+		case 1:
+			scheme = hCased("http", 0)
+		case 2:
+			scheme = hSymText(vLen(0, vParam("sch", 2)), hSchemeChars)
+		}
+		host = hGenRepresentative()
 	case 2:
-		scheme = hSymText(vLen(0, vParam("sch", 2)), hSchemeChars)
+		vCover("space:decoration")
+		host = hGenRepresentative()
+		// text around the host that does not change which host the URL denotes
+		switch vChoice(6) {
+		case 0:
+			post = ":" + hSymText(vLen(0, 2), hDigits)
+		case 1:
+			post = "/" + hSymText(1, hAlnumBoth)
+		case 2:
+			post = "?" + hSymText(1, hAlnumBoth)
+		case 3:
+			post = "#" + hSymText(1, hAlnumBoth)
+		case 4:
+			pre = hSymText(1, hAlnumBoth) + "@"
+		case 5:
+			pre = hSymText(1, hLower) + ":" + hSymText(1, hLower) + "@"
+			post = ":" + hSymText(1, hDigits) + "/" + hSymText(1, hLower) + "?" + hSymText(1, hLower) + "#" + hSymText(1, hLower)
+		}
 	}
 	isHTTPS := hEqFold(scheme, "https")
 	isHTTP := hEqFold(scheme, "http")
-
-	// host
-	var host hHost
-	switch vChoice(5) {
-	case 0:
-		vCover("kind:reg-name")
-		host = hGenRegName()
-	case 1:
-		vCover("kind:ipv4")
-		host = hGenIPv4()
-	case 2:
-		vCover("kind:ipv6")
-		host = hGenIPv6()
-	case 3:
-		vCover("kind:idna-mapped")
-		host = hGenMapped()
-	case 4:
-		vCover("kind:no-host")
-		host = hHost{}
-	}
-
-	// decoration around the host (does not change which host the text denotes)
-	pre, post := "", ""
-	switch vChoice(vParam("deco", 4)) {
-	case 0:
-	case 1:
-		post = ":" + hSymText(vLen(0, 2), hDigits)
-	case 2:
-		post = "/" + hSymText(1, hAlnumBoth)
-	case 3:
-		pre = hSymText(1, hAlnumBoth) + "@"
-	case 4:
-		pre = hSymText(1, hAlnumBoth) + ":" + hSymText(1, hAlnumBoth) + "@"
-		post = ":" + hSymText(1, hDigits) + "/?" + hSymText(1, hAlnumBoth) + "#" + hSymText(1, hAlnumBoth)
-	}
 	s := scheme + "://" + pre + host.text + post
 
 	hasHost := host.hostname != ""
@@ -446,8 +487,107 @@ func H20a() {
 }
 
 func H20a_twin() {
-	u, err := ParsePublicURL(hCased("https", 0)+"://"+hSymText(2, hAlnumLower)+"."+hSymText(2, hAlnumBoth), true)
+	u, err := ParsePublicURL("https://"+hSymText(2, hLower)+"."+hSymText(2, hLetters), true)
 	if err == nil && u.Hostname() != "" {
 		vAssert(false, "H20a_twin.reach: reachable")
+	}
+}
+
+// ---- H20a2: arbitrary bytes ---------------------------------------------------------------------------------
+
+// hSplitDots: reference split of a host name on '.'.
+func hSplitDots(h string) []string {
+	var out []string
+	start := 0
+	for i := 0; i < len(h); i++ {
+		if h[i] == '.' {
+			out = append(out, h[start:i])
+			start = i + 1
+		}
+	}
+	return append(out, h[start:])
+}
+
+func hHasColon(h string) bool {
+	for i := 0; i < len(h); i++ {
+		if h[i] == ':' {
+			return true
+		}
+	}
+	return false
+}
+
+// H20a2: "https://" ++ pre ++ k arbitrary ASCII bytes ++ suf. Whatever the bytes make of the text (user info, port,
+// path, query, fragment, escapes, brackets): the URL that strict mode returns - the value every caller dials - must
+// be https and must not name an IP address or a reserved host; non-strict mode must return an https URL with a host.
+func H20a2() {
+	pre, suf := "", ""
+	switch vChoice(9) {
+	case 0:
+	case 1:
+		suf = "localhost"
+	case 2:
+		suf = ".test"
+	case 3:
+		suf = "example.com"
+	case 4:
+		pre, suf = "[::1", "]"
+	case 5:
+		pre = "127.0.0."
+	case 6:
+		pre = "localhost"
+	case 7:
+		pre = "nuts.nl"
+	case 8:
+		pre, suf = "[::1%25", "]"
+	}
+	k := vLen(0, vParam("k", 2))
+	mid := vString(k)
+	for i := 0; i < k; i++ {
+		vAssume(mid[i] < 0x80)
+	}
+	s := "https://" + pre + mid + suf
+	strict := vBool()
+	u, err := ParsePublicURL(s, strict)
+	if err != nil {
+		vCover("rejected")
+		return
+	}
+	vAssert(u != nil && u.Scheme == "https", "H20a2.result_scheme: returned URL is not https although the text starts with https://")
+	h := u.Hostname()
+	vAssert(h != "", "H20a2.has_host: accepted a URL without host")
+	if !strict {
+		vCover("lenient:accepted")
+		return
+	}
+	vCover("strict:accepted")
+	if hHasColon(h) {
+		// only a bracketed literal can contain ':'. Judged only where the harness knows it to be a valid address.
+		if h == "::1" || (len(h) > 4 && h[:4] == "::1%") {
+			if len(h) > 3 {
+				vClass("IPv6 literal with zone identifier")
+			} else {
+				vClass("IPv6 literal")
+			}
+			vAssert(false, "H20a2.strict_host_not_ip: strict mode accepted a public URL whose host is an IP address")
+		}
+		vCover("strict:accepted-bracketed-other")
+		return
+	}
+	labels := hSplitDots(h)
+	if hRefIPv4(labels) {
+		vClass("IPv4 address")
+		vAssert(false, "H20a2.strict_host_not_ip: strict mode accepted a public URL whose host is an IP address")
+	}
+	if hRefReserved(labels) {
+		vClass("reserved name")
+		vAssert(false, "H20a2.strict_host_not_reserved: strict mode accepted a public URL whose host is a reserved name")
+	}
+}
+
+func H20a2_twin() {
+	u, err := ParsePublicURL("https://nuts.nl"+vString(1), true)
+	if err == nil && u.Path != "" {
+		vAssert(false, "H20a2_twin.reach: reachable")
 	}
 }
